@@ -20,7 +20,7 @@ import numpy as np
 
 import vf
 
-BUILD = dict(extracted=['tensor'], translators=set())
+BUILD = dict(extracted=['tensor', 'citer'], translators=set())
 
 NPROC = 12
 MAXD_MODEL = 48          # circuits above this dimension are checked by the oracle only
@@ -1089,6 +1089,282 @@ def check_iteration(ctx, rng):
                       'restricted iteration does not return exactly the operations inside the requested area')
 
 
+
+# =============================================================================== grid iterator vs extracted model (coq/circuit/Iter.v)
+ITER_F3 = dict(call='CircuitGridIterator', symptom='end_not_clipped_to_circuit')
+
+
+class IterHang(BaseException):
+    pass
+
+
+class time_limit:
+    """raise IterHang in the main thread when the body runs longer than `sec` seconds (a defective iterator may never
+    leave __next__); no-op outside the main thread"""
+    def __init__(self, sec):
+        self.sec = sec
+        self.old = None
+
+    def __enter__(self):
+        import signal
+
+        def _alarm(*_):
+            raise IterHang()
+        try:
+            self.old = signal.signal(signal.SIGALRM, _alarm)
+            signal.setitimer(signal.ITIMER_REAL, self.sec)
+        except ValueError:
+            self.old = None
+        return self
+
+    def __exit__(self, *a):
+        import signal
+        if self.old is not None:
+            signal.setitimer(signal.ITIMER_REAL, 0)
+            signal.signal(signal.SIGALRM, self.old)
+        return False
+
+
+def gen_iter_model_case(rng):
+    """circuit (append / insert history) + iterator arguments; start / end are arbitrary integer pairs (outside the grid too),
+    regions may reach beyond the last cycle, about 6 % of the qudit lists / regions are invalid (empty, out of range)"""
+    n = rng.randint(1, 6)
+    nops = 0 if rng.random() < 0.06 else rng.randint(1, 10)
+    hist = []
+    nc_guess = 0
+    for _ in range(nops):
+        a = min(n, rng.choice([1, 1, 2, 2, 3]))
+        loc = rng.sample(range(n), a)
+        if rng.random() < 0.2 and nc_guess > 0:
+            hist.append(['i', rng.randrange(nc_guess), loc])
+        else:
+            hist.append(['a', loc])
+        nc_guess += 1
+    return dict(stream='iter_model', n=n, build=hist, args=None, argseed=rng.getrandbits(32))
+
+
+def iter_model_args(rng, n, nc):
+    a = {}
+    if rng.random() < 0.6:
+        a['start'] = [rng.randint(-1, nc + 1), rng.randint(-2, n + 1)]
+    if rng.random() < 0.6:
+        a['end'] = [rng.randint(-1, nc + 2), rng.randint(-2, n + 1)]
+    mode = rng.choice(['none', 'qudits', 'region'])
+    if mode == 'qudits':
+        r = rng.random()
+        if r < 0.03:
+            a['qudits'] = []
+        elif r < 0.06:
+            a['qudits'] = [rng.choice([-1, n, n + 1])] + rng.sample(range(n), rng.randint(0, n))
+        else:
+            qs = rng.sample(range(n), rng.randint(1, n))
+            if rng.random() < 0.1:
+                qs.append(rng.choice(qs))           # a repeated qudit
+            a['qudits'] = qs
+    elif mode == 'region':
+        if rng.random() < 0.03:
+            a['region'] = []
+        else:
+            qs = rng.sample(range(n), rng.randint(1, n))
+            items = []
+            for q in qs:
+                top = max(nc - 1, 0) + (rng.randint(1, 2) if rng.random() < 0.1 else 0)     # sometimes beyond the last cycle
+                lo = rng.randint(0, top)
+                items.append([q, lo, rng.randint(lo, top)])
+            a['region'] = items
+    a['exclude'] = rng.random() < 0.4
+    a['reverse'] = rng.random() < 0.4
+    return a
+
+
+def iter_model_eval(case):
+    """build the circuit, drive the real CircuitGridIterator step by step, evaluate the brute-force oracle.
+    returns (case with args filled in, model line, real answer, oracle answer, api answer or None)"""
+    import random
+    from bqskit.ir.circuit import Circuit
+    from bqskit.ir.gates import XGate, CNOTGate, CCXGate
+    from bqskit.ir.iterator import CircuitGridIterator
+    from bqskit.ir.region import CircuitRegion
+    n = case['n']
+    c = Circuit(n)
+    gates = {1: XGate(), 2: CNOTGate(), 3: CCXGate()}
+    for h in case['build']:
+        if h[0] == 'a':
+            c.append_gate(gates[len(h[1])], h[1])
+        else:
+            try:
+                c.insert_gate(min(h[1], max(c.num_cycles - 1, 0)), gates[len(h[2])], h[2])
+            except Exception:   # noqa
+                c.append_gate(gates[len(h[2])], h[2])
+    nc = c.num_cycles
+    if case.get('args') is None:
+        case = dict(case, args=iter_model_args(random.Random(case['argseed']), n, nc))
+    a = case['args']
+    # operation identities: one number per (cycle, operation object)
+    ids = {}
+    rows = []
+    for cy in range(nc):
+        row = []
+        for q in range(n):
+            o = c._circuit[cy][q]
+            if o is None:
+                row.append('N')
+            else:
+                k = ids.setdefault((cy, id(o)), len(ids))
+                row.append('[%d [%s]]' % (k, ' '.join(map(str, o.location))))
+        rows.append('[' + ' '.join(row) + ']')
+    start = tuple(a.get('start', (0, 0)))
+    end = tuple(a['end']) if 'end' in a else None
+    if 'qudits' in a:
+        qor, mode = list(a['qudits']), '[q [%s]]' % ' '.join(map(str, a['qudits']))
+    elif 'region' in a:
+        qor = {q: (lo, hi) for q, lo, hi in a['region']}
+        mode = '[r [%s]]' % ' '.join('[%d %d %d]' % tuple(t) for t in a['region'])
+    else:
+        qor, mode = None, '[n]'
+    line = 'it %d [%s] [%d %d] %s %s %d %d' % (n, ' '.join(rows), start[0], start[1], 'N' if end is None else '[%d %d]' % end, mode,
+                                               int(a['exclude']), int(a['reverse']))
+    # ---- the real iterator, one __next__ at a time; the pointer (cycle, qudit) is read after each return
+    bound = 8 * (nc + 4) * (n + 6) + 50
+    import signal
+
+    def _alarm(*_):
+        raise IterHang()
+    try:                                    # a loop that never leaves __next__ (main thread only)
+        old_handler = signal.signal(signal.SIGALRM, _alarm)
+        signal.setitimer(signal.ITIMER_REAL, 6.0)
+    except ValueError:
+        old_handler = None
+    try:
+        it = CircuitGridIterator(c, start, end, qor, a['exclude'], a['reverse'], True)
+        got = []
+        while True:
+            if len(got) > bound:
+                real = ['ERR', 'Hang']
+                break
+            try:
+                cy, op = next(it)
+            except StopIteration:
+                real = ['OK', got]
+                break
+            got.append([int(cy), int(it.qudit), ids.get((cy, id(op)), -1)])
+    except (ValueError, IndexError) as e:
+        real = ['ERR', 'Value' if isinstance(e, ValueError) else 'Index']
+    except IterHang:
+        real = ['ERR', 'Hang']
+    except Exception as e:   # noqa
+        real = ['ERR', exc_name(e)]
+    finally:
+        if old_handler is not None:
+            signal.setitimer(signal.ITIMER_REAL, 0)
+            signal.signal(signal.SIGALRM, old_handler)
+    # ---- the public API on the same arguments (it picks the DAG iterator when every argument is the default)
+    api = None
+    default = start == (0, 0) and end is None and qor is None and not a['exclude'] and not a['reverse']
+    if not default and real[0] == 'OK':
+        try:
+            kw = dict(start=start, end=end, qudits_or_region=(CircuitRegion(qor) if isinstance(qor, dict) else qor), exclude=a['exclude'], reverse=a['reverse'])
+            l1 = [[int(cy), ids.get((cy, id(op)), -1)] for cy, op in c.operations_with_cycles(**kw)]
+            l2 = [id(op) for op in c.operations(**kw)]
+            l3 = [id(op) for _, op in c.operations_with_cycles(**kw)]
+            api = ['OK', l1 if l2 == l3 else 'operations() and operations_with_cycles() differ']
+        except Exception as e:   # noqa
+            api = ['ERR', exc_name(e)]
+    # ---- brute-force oracle (independent of the pointer arithmetic): the area as a set of grid points, scanned in tuple order
+    if qor is None:
+        bounds = {q: (0, max(nc - 1, 0)) for q in range(n)}
+    elif isinstance(qor, dict):
+        bounds = dict(qor)
+    else:
+        bounds = {q: (0, max(nc - 1, 0)) for q in qor}
+    if not bounds or (isinstance(qor, list) and not all(0 <= q < n for q in qor)):
+        oracle = ['ERR', 'Value']
+    else:
+        e_ = end if end is not None else (nc - 1, n - 1)
+        pts = [(cy, q) for cy in range(nc) for q in range(n) if q in bounds and start <= (cy, q) <= e_ and bounds[q][0] <= cy <= bounds[q][1]]
+        if a['reverse']:
+            pts.reverse()
+        exp, seen = [], set()
+        for cy, q in pts:
+            o = c._circuit[cy][q]
+            if o is None or (cy, id(o)) in seen:
+                continue
+            seen.add((cy, id(o)))
+            if a['exclude'] and not all(x in bounds and bounds[x][0] <= cy <= bounds[x][1] for x in o.location):
+                continue
+            exp.append([cy, q, ids[(cy, id(o))]])
+        oracle = ['OK', exp]
+    return case, line, real, oracle, api
+
+
+def parse_iter_answer(s):
+    v = parse_val(s) if not s.startswith('EXN') and s != 'BADCMD' else None
+    if not isinstance(v, list) or not v:
+        return ['ERR', 'model:' + s[:80]]
+    if v[0] == 'OK':
+        return ['OK', [list(map(int, e)) for e in v[1]]]
+    return ['ERR', str(v[1])]
+
+
+def check_iter_model_batch(ctx, cases, report=True):
+    """cases -> number of disagreements; real iterator == extracted model, real iterator == brute-force oracle, public API == class"""
+    evals = []
+    hangs = 0
+    for case in cases:
+        if hangs >= 3:                      # every further case would cost the full time limit
+            ctx.count('iter_model_not_run_after_3_hangs')
+            continue
+        try:
+            evals.append(iter_model_eval(case))
+            hangs += evals[-1][2] == ['ERR', 'Hang']
+        except Exception as e:   # noqa
+            ctx.violation(dict(call='CircuitGridIterator', symptom='harness_raises', exception=exc_name(e)), case, 'no exception', str(e)[:200],
+                          'building the circuit / driving the iterator raised')
+    if not evals:
+        return
+    try:
+        outs = vf.run_model('citer', [e[1] for e in evals])
+    except Exception as e:   # noqa
+        ctx.broken_obligation('extracted iterator model (citer) failed', str(e))
+        return
+    if len(outs) != len(evals):
+        ctx.broken_obligation('extracted iterator model (citer): wrong number of answers', f'{len(outs)} for {len(evals)}')
+        return
+    for (case, line, real, oracle, api), out in zip(evals, outs):
+        model = parse_iter_answer(out)
+        a = case['args']
+        kind = 'region' if 'region' in a else 'qudits' if 'qudits' in a else 'none'
+        ctx.case(case, nontrivial=bool(case['build']) and real[0] == 'OK' and len(real[1]) > 0)
+        ctx.count('iter_model_' + kind + ('_rev' if a['reverse'] else '') + ('_excl' if a['exclude'] else ''))
+        ctx.count('iter_model_answer_' + (real[0] if real[0] == 'OK' else real[1]))
+        if model == ['ERR', 'Fuel'] or model[1:] and str(model[1]).startswith('model:'):
+            ctx.broken_obligation('extracted iterator model ran out of fuel / failed', line + ' -> ' + out[:200])
+            continue
+        if model == ['ERR', 'Index']:
+            # the model reproduces the code's IndexError (finding C06-F3: end is clipped to the region, not to the circuit);
+            # a repaired implementation returns what the oracle expects
+            if real == ['ERR', 'Index']:
+                ctx.count('iter_model_F3_inputs')
+                ctx.violation(ITER_F3, case, oracle, real, 'an end point / region beyond the last cycle (or any end point on a circuit without cycles) '
+                              'raises IndexError instead of being clipped to the circuit')
+            elif real != oracle:
+                ctx.violation(dict(call='CircuitGridIterator', symptom='wrong_operations'), case, oracle, real,
+                              'restricted iteration does not return exactly the operations inside the requested area, in grid order')
+            continue
+        if real != model:
+            ctx.violation(dict(call='CircuitGridIterator', symptom='differs_from_model'), case, model, real,
+                          'the real CircuitGridIterator and the extracted Coq model (circuit/Iter.v) disagree on (cycle, pointer qudit, operation) sequence')
+        if real != oracle:
+            ctx.violation(dict(call='CircuitGridIterator', symptom='wrong_operations'), case, oracle, real,
+                          'restricted iteration does not return exactly the operations inside the requested area, once each, in grid order')
+        if api is not None and api != ['OK', [[e[0], e[2]] for e in real[1]]]:
+            ctx.violation(dict(call='Circuit.operations_with_cycles', symptom='differs_from_grid_iterator'), case, [[e[0], e[2]] for e in real[1]], api,
+                          'Circuit.operations / operations_with_cycles do not return what CircuitGridIterator yields for the same arguments')
+
+
+def replay_iter_model(ctx, case):
+    check_iter_model_batch(ctx, [case])
+
 # =============================================================================== shrinking of failing cases
 class Probe:
     """records the signatures a case produces, without reporting anything"""
@@ -1257,15 +1533,22 @@ def run(ctx: vf.Ctx):
                 'builder stream: single apply_right/apply_left(inverse)/eval_apply_right/StateVector.apply on random integer tensors (+ malformed '
                 'locations); edit stream: set_param/set_params/freeze_param histories; float stream: library parameterised gates vs Kronecker '
                 'oracle (1e-10), product rule (1e-9) and central differences (1e-6); iteration stream: start/end/qudits/region/exclude/reverse vs '
-                'brute-force grid filter. non-trivial = at least one operation; distinct by canonical case text')
+                'brute-force grid filter; iter_model stream: circuits of width 1-6 built by 0-10 appends/inserts (6 % without any cycle), '
+                'CircuitGridIterator driven one __next__ at a time with start/end anywhere in [-1,nc+2]x[-2,n+1], whole circuit / qudit list '
+                '(repeated, ~6 % empty or out of range) / region (10 % of the intervals beyond the last cycle, 3 % empty), exclude, reverse; the '
+                '(cycle, pointer qudit, operation) sequence or the exception class compared == with the extracted model of iterator.py '
+                '(coq/circuit/Iter.v) and with an ORDERED brute-force filter over the grid; Circuit.operations/operations_with_cycles compared '
+                'with the class. non-trivial = at least one operation; distinct by canonical case text')
     ctx.assumptions += [
         'numpy transpose/reshape(C order)/matmul/argsort behave as stated at the top of coq/lib/Tensor.v',
         'float arithmetic on Gaussian integers below 2^50 is exact (IEEE-754 double), so == comparisons are meaningful',
         'the iteration order handed to the model is read from the implementation (operations_with_cycles); that it is a program order is checked '
         'per case against the append order (and is the subject of C04/C05)',
         'gate oracles (gate.get_unitary/get_grad) are arbitrary functions in the theorems; unitarity (U U^dagger = 1) is a hypothesis of the gradient theorem',
+        'iterator theorem: the grid invariant (an operation is stored at every qudit of its location, C04/C05) is a hypothesis; qudit keys of a '
+        'caller-supplied region lie on the circuit; the theorem is partial correctness (an iteration that finishes), termination is validated by the run',
     ]
-    ctx.trusted = ['Coq 8.16.1 kernel', 'ExtrOcamlBasic extraction, OCaml 4.13.1, coq/extract/tensor_driver.ml',
+    ctx.trusted = ['Coq 8.16.1 kernel', 'ExtrOcamlBasic extraction, OCaml 4.13.1, coq/extract/tensor_driver.ml, coq/extract/citer_driver.ml',
                    'numpy semantics of transpose/reshape/matmul/argsort as transcribed in coq/lib/Tensor.v',
                    'harness/props/c06.py Kronecker oracle (np.kron, explicit permutation matrices)', 'IEEE-754 exactness on small integers']
     rng = ctx.rng
@@ -1275,7 +1558,12 @@ def run(ctx: vf.Ctx):
     cdir = vf.ROOT / 'corpus' / 'C06'
     for f in sorted(cdir.glob('*.json')) if cdir.exists() else []:
         data = json.loads(f.read_text())
-        replay_case(ctx, run_, data['case'] if 'case' in data else data)
+        try:
+            with time_limit(60.0):
+                replay_case(ctx, run_, data['case'] if 'case' in data else data)
+        except IterHang:
+            ctx.violation(dict(call='corpus', symptom='hangs'), data['case'] if 'case' in data else data, 'an answer', 'no answer within 60 s',
+                          f'corpus case {f.name} does not terminate')
         ctx.count('corpus')
     run_.flush()
 
@@ -1313,9 +1601,28 @@ def run(ctx: vf.Ctx):
     tm['float'] = round(time.time() - t0, 1)
     t0 = time.time()
     # ---- iteration stream
+    import signal
+
+    def _alarm(*_):
+        raise IterHang()
     for i in range(ctx.n(1500, 30000)):
-        guarded(ctx, 'iteration', dict(stream='iteration', index=i, seed=ctx.seed), lambda: check_iteration(ctx, rng))
+        # a defective iterator may never leave __next__: 20 s limit per case, then the stream stops
+        old_handler = signal.signal(signal.SIGALRM, _alarm)
+        signal.setitimer(signal.ITIMER_REAL, 20.0)
+        try:
+            guarded(ctx, 'iteration', dict(stream='iteration', index=i, seed=ctx.seed), lambda: check_iteration(ctx, rng))
+        except IterHang:
+            ctx.violation(dict(call='CircuitIterator', symptom='hangs'), dict(stream='iteration', index=i, seed=ctx.seed), 'a finite sequence',
+                          'no answer within 20 s', 'restricted iteration does not terminate')
+            break
+        finally:
+            signal.setitimer(signal.ITIMER_REAL, 0)
+            signal.signal(signal.SIGALRM, old_handler)
     tm['iteration'] = round(time.time() - t0, 1)
+    t0 = time.time()
+    # ---- grid iterator against the extracted model of iterator.py (coq/circuit/Iter.v) and the ordered brute-force oracle
+    check_iter_model_batch(ctx, [gen_iter_model_case(rng) for _ in range(ctx.n(2500, 60000))])
+    tm['iter_model'] = round(time.time() - t0, 1)
     # ---- shrink what failed (first case of each signature) before it is written to the replay file
     t0 = time.time()
     for v in ctx.violations[:12]:
@@ -1329,9 +1636,11 @@ def run(ctx: vf.Ctx):
     tm['shrink'] = round(time.time() - t0, 1)
     ctx.cov['timings_s'] = tm
     ctx.cov['model_functions_with_theorems'] = ['apply_right', 'apply_left', 'eval_apply_right', 'sv_apply', 'get_unitary', 'get_statevector',
-                                                'get_unitary_and_grad', 'params', 'set_params', 'get_param_location', 'get_param', 'set_param', 'freeze_param']
-    ctx.cov['oracle_only'] = ['CircuitIterator start/end/qudits_or_region/exclude/reverse (brute force over the grid)',
-                              'float-valued library gates (Kronecker oracle, finite differences)']
+                                                'get_unitary_and_grad', 'params', 'set_params', 'get_param_location', 'get_param', 'set_param', 'freeze_param',
+                                                'CircuitGridIterator.__init__', 'increment_iter', 'decrement_iter', 'step', '__next__']
+    ctx.cov['correspondence_only'] = ['termination and IndexError-freedom of the iterator model (partial-correctness theorem only)',
+                                      'CircuitIterator dispatch to CircuitDagIterator for all-default arguments (C04/C05)']
+    ctx.cov['oracle_only'] = ['float-valued library gates (Kronecker oracle, finite differences)']
     ctx.cov['uncovered'] = ['UnitaryBuilder.calc_env_matrix (qubit-only code, used by QFactor; out of the property text)',
                             'eval_apply_left (unused by Circuit)']
 
@@ -1375,6 +1684,8 @@ def replay_case(ctx, run_, case):
         probe_statevector_radixes(ctx)
     elif st == 'iter_end_past':
         replay_end_past(ctx, case)
+    elif st == 'iter_model':
+        replay_iter_model(ctx, case)
     else:
         ctx.count('corpus_skipped_' + str(st))
 
@@ -1472,7 +1783,7 @@ def replay(ctx, data):
     from bqskit.ir.circuit import Circuit  # noqa: F401
     run_ = Run(ctx)
     case = data.get('case', {})
-    if isinstance(case, dict) and case.get('stream') in ('exact', 'float', 'param_edits', 'builder', 'probe', 'iter_end_past'):
+    if isinstance(case, dict) and case.get('stream') in ('exact', 'float', 'param_edits', 'builder', 'probe', 'iter_end_past', 'iter_model'):
         replay_case(ctx, run_, case)
         run_.flush()
     elif isinstance(case, dict) and case.get('stream') == 'iteration':
